@@ -159,7 +159,16 @@ class _Desugar(ast.NodeTransformer):
     """Source-level normal forms applied to every module before any analysis sees it (positions are kept):
 
     * ``for i in np.flatnonzero(M): body``  ->  ``for i in range(len(M)): if not M[i]: continue; body``
-      (same iterations in the same order for a 1-d mask M; the loop then has the whole-axis shape every loop rule knows)"""
+      (same iterations in the same order for a 1-d mask M; the loop then has the whole-axis shape every loop rule knows)
+    * ``i = 0; while i < N: i += 1; body``  ->  ``for i in range(1, N + 1): body``  (see _counting_while)"""
+
+    def generic_visit(self, node):
+        node = super().generic_visit(node)
+        for fld in ("body", "orelse", "finalbody"):
+            b = getattr(node, fld, None)
+            if isinstance(b, list) and b and isinstance(b[0], ast.stmt):
+                setattr(node, fld, _counting_while(b))
+        return node
 
     def visit_For(self, node: ast.For):
         self.generic_visit(node)
@@ -183,6 +192,58 @@ class _Desugar(ast.NodeTransformer):
             node.iter = new_iter
             node.body = [guard] + node.body
         return node
+
+
+def _assigned_names(stmts) -> set:
+    out = set()
+    for st in stmts:
+        for n in ast.walk(st):
+            if isinstance(n, (ast.Assign, ast.AugAssign, ast.AnnAssign, ast.For, ast.NamedExpr)):
+                tgs = n.targets if isinstance(n, ast.Assign) else [n.target]
+                for t in tgs:
+                    for x in ast.walk(t):
+                        if isinstance(x, ast.Name):
+                            out.add(x.id)
+    return out
+
+
+def _counting_while(block: list) -> list:
+    """``i = 0; while i < N: i += 1; body``  ->  ``for i in range(1, N + 1): body``  (same passes, same value of i in each pass
+    and after the loop) when neither i nor the names in N are assigned elsewhere in the body."""
+    out = []
+    k = 0
+    while k < len(block):
+        st = block[k]
+        nxt = block[k + 1] if k + 1 < len(block) else None
+        if isinstance(st, ast.Assign) and len(st.targets) == 1 and isinstance(st.targets[0], ast.Name) \
+                and isinstance(st.value, ast.Constant) and st.value.value == 0 and type(st.value.value) is int \
+                and isinstance(nxt, ast.While) and not nxt.orelse and isinstance(nxt.test, ast.Compare) and len(nxt.test.ops) == 1 \
+                and isinstance(nxt.test.ops[0], ast.Lt) and isinstance(nxt.test.left, ast.Name) and nxt.test.left.id == st.targets[0].id \
+                and nxt.body and isinstance(nxt.body[0], ast.AugAssign) and isinstance(nxt.body[0].op, ast.Add) \
+                and isinstance(nxt.body[0].target, ast.Name) and nxt.body[0].target.id == st.targets[0].id \
+                and isinstance(nxt.body[0].value, ast.Constant) and nxt.body[0].value.value == 1 and len(nxt.body) > 1:
+            i = st.targets[0].id
+            bound = nxt.test.comparators[0]
+            rest = nxt.body[1:]
+            touched = _assigned_names(rest)
+            bound_names = {x.id for x in ast.walk(bound) if isinstance(x, ast.Name)}
+            pure_bound = all(isinstance(x, (ast.Name, ast.Attribute, ast.Constant, ast.Load)) for x in ast.walk(bound))
+            if i not in touched and not (bound_names & touched) and pure_bound:
+                rng = ast.Call(func=ast.Name(id="range", ctx=ast.Load()),
+                               args=[ast.Constant(value=1), ast.BinOp(left=bound, op=ast.Add(), right=ast.Constant(value=1))], keywords=[])
+                loop = ast.For(target=ast.Name(id=i, ctx=ast.Store()), iter=rng, body=rest, orelse=[], type_comment=None)
+                ast.copy_location(loop, nxt)
+                for sub in ast.walk(rng):
+                    if not hasattr(sub, "lineno"):
+                        ast.copy_location(sub, nxt.test)
+                ast.copy_location(loop.target, nxt.test)
+                out.append(st)
+                out.append(loop)
+                k += 2
+                continue
+        out.append(st)
+        k += 1
+    return out
 
 
 class Program:
